@@ -1,7 +1,8 @@
 /-
 C15 — provider lifecycle. Executable models of the three SDK providers *as written* (fixed tree:
 45152c6 unregister of an unknown processor returns early, 5606da6 simple span processor tolerates a nil
-exporter, 061742c log Emit is a no-op once the provider is stopped; known finding F26 stays).
+exporter, 061742c log Emit is a no-op once the provider is stopped, f6b676c TracerProvider.Shutdown hands a done
+context on to every processor instead of returning before the first one — former finding F26).
 
 Every provider method body is ONE atomic step (`step`): the trace provider's methods run under `p.mu`
 (`End` reads the processor list through one atomic load), so every interleaving of any number of
@@ -57,6 +58,12 @@ def setAt {α : Type} (f : Nat → α) (i : Nat) (v : α) : Nat → α :=
 inductive Slot | empty | live (sdk : Bool) | ended
   deriving DecidableEq, Repr
 
+/-! ## Choices: resolution of the `select` races on a done context (see file header) -/
+structure Choice where
+  e : Nat → Bool := fun _ => false  -- per component: the raced call of this component reported the context error
+  k : Nat → Nat := fun _ => 0       -- per component: records exported by the raced drain / exporter calls reached
+  x : Nat → Nat := fun _ => 0       -- per component: records already exported when the raced ForceFlush returned
+
 /-! ## Trace provider (sdk/trace/provider.go, simple_span_processor.go, batch_span_processor.go) -/
 namespace TP
 
@@ -100,6 +107,26 @@ def procShutdown (p : PS) : PS :=
     else { p with stopped := true, queued := 0, cnt := { p.cnt with s := p.cnt.s + 1, n := p.cnt.n + p.queued } }
   | .batchNil => { p with stopped := true }
 
+/-- `sp.Shutdown(done ctx)` as the provider's Shutdown calls it since f6b676c.  The stock processors stop
+synchronously (simple: the exporter field is zeroed; batch: `stopped.Store(true)`) but do the rest in a goroutine
+that races the caller's `select` on `ctx.Done()`: when the call returns, `x` of the queued spans have been
+exported by the drain and the exporter's Shutdown has (`k ≥ 1`) or has not yet been called; what is outstanding
+arrives asynchronously (Lag.lean, `T.land`).  `queued` of a stopped batch processor = spans its drain still owes. -/
+def procShutdownD (k x : Nat) (p : PS) : PS :=
+  match p.kind with
+  | .recd => { p with cnt := { p.cnt with s := p.cnt.s + 1 } }
+  | .simpleRec => if p.stopped then p else { p with stopped := true, cnt := { p.cnt with s := p.cnt.s + min k 1 } }
+  | .simpleNil => { p with stopped := true }
+  | .batchRec =>
+    if p.stopped then p
+    else { p with stopped := true, queued := p.queued - min x p.queued,
+                  cnt := { p.cnt with s := p.cnt.s + min k 1, n := p.cnt.n + min x p.queued } }
+  | .batchNil => { p with stopped := true }
+
+/-- a stock processor whose raced Shutdown may answer with the context error -/
+def racy (p : PS) : Bool :=
+  !p.stopped && (p.kind == .simpleRec || p.kind == .batchRec || p.kind == .batchNil)
+
 /-- `sp.ForceFlush(live ctx)` -/
 def procFlush (p : PS) : PS :=
   match p.kind with
@@ -109,13 +136,12 @@ def procFlush (p : PS) : PS :=
 
 inductive Op
   | reg (i : Nat) | unreg (i : Nat)
-  | shutdown (c : Ctx) | flush (c : Ctx)
+  | shutdown (c : Ctx) (ch : Choice) | flush (c : Ctx)
   | tracer (k : Nat)            -- tracer slot k := provider.Tracer(..)
   | start (k j : Nat)           -- span slot j := tracer slot k .Start
   | end_ (j : Nat)              -- span slot j .End
   | span (k : Nat)              -- Start and End at once on tracer slot k
   | pshut (i : Nat)             -- pool[i].Shutdown(background) called directly
-  deriving DecidableEq, Repr
 
 structure St where
   pool : Nat → PS
@@ -151,6 +177,10 @@ def flushAll (pool : Nat → PS) (procs : List (Nat × Bool)) : Nat → PS :=
 def shutdownAll (pool : Nat → PS) (procs : List (Nat × Bool)) : Nat → PS :=
   procs.foldl (fun pl p => if p.2 then pl else upd pl p.1 procShutdown) pool
 
+/-- the same loop with a done context -/
+def shutdownAllD (ch : Choice) (pool : Nat → PS) (procs : List (Nat × Bool)) : Nat → PS :=
+  procs.foldl (fun pl p => if p.2 then pl else upd pl p.1 (procShutdownD (ch.k p.1) (ch.x p.1))) pool
+
 def step (s : St) : Op → St × Res
   | .reg i =>
     if s.isShutdown then (s, .none)
@@ -161,16 +191,13 @@ def step (s : St) : Op → St × Res
       | none => (s, .none)
       | some ((_, once), rest) =>
         ({ s with pool := if once then s.pool else upd s.pool i procShutdown, procs := rest }, .none)
-  | .shutdown c =>
+  | .shutdown c ch =>
     if s.isShutdown then (s, .ok)
-    else
-      let s := { s with isShutdown := true }
-      match s.procs with
-      | [] => ({ s with procs := [] }, .ok)
-      | _ :: _ =>
-        -- `select { case <-ctx.Done(): return ctx.Err() }` before the first processor [F26]
-        if c.done then (s, c.err)
-        else ({ s with pool := shutdownAll s.pool s.procs, procs := [] }, .ok)
+    else if c.done then
+      -- every processor's Shutdown(ctx) is called although ctx is done; errors are joined; the list is cleared
+      ({ s with isShutdown := true, pool := shutdownAllD ch s.pool s.procs, procs := [] },
+        if s.procs.any (fun p => !p.2 && racy (s.pool p.1) && ch.e p.1) then c.err else .ok)
+    else ({ s with isShutdown := true, pool := shutdownAll s.pool s.procs, procs := [] }, .ok)
   | .flush c =>
     match s.procs with
     | [] => (s, .ok)
@@ -211,12 +238,6 @@ def finalFrom (s : St) : List Op → St
   | op :: r => finalFrom (step s op).1 r
 
 end TP
-
-/-! ## Choices: resolution of the `select` races on a done context (see file header) -/
-structure Choice where
-  e : Nat → Bool := fun _ => false  -- per component: the raced call of this component reported the context error
-  k : Nat → Nat := fun _ => 0       -- per component: records exported by the raced drain / exporter calls reached
-  x : Nat → Nat := fun _ => 0       -- per component: records already exported when the raced ForceFlush returned
 
 /-! ## Logger provider (sdk/log/provider.go, logger.go, simple.go, batch.go) -/
 namespace LP
